@@ -203,12 +203,20 @@ def features(case_files):
     return inv, zero
 
 
-def check_files(case_files, layout='one'):
+def check_files(case_files, layout='one', reindex=True):
     from TotalDepth.RP66V1.core import LogicalFile
     data, exp = build(case_files, layout)
     try:
-        with LogicalFile.LogicalIndex(io.BytesIO(data)) as idx:
+        index_object = LogicalFile.LogicalIndex(io.BytesIO(data))
+        with index_object as idx:
             got = [[(pe.eflr.lr_type, observed_table(pe.eflr)) for pe in lf.eflrs] for lf in idx.logical_files]
+        if reindex:
+            # indexing again through the same object (enter, leave, enter) must give the same logical files
+            with index_object as idx:
+                again = [[(pe.eflr.lr_type, observed_table(pe.eflr)) for pe in lf.eflrs] for lf in idx.logical_files]
+            if again != got:
+                return [({'kind': 'second_indexing_differs'}, 'indexing the file a second time through the same LogicalIndex gives %d logical '
+                         'files, the first time %d' % (len(again), len(got)))], ('reindex',)
     except Exception as err:  # noqa
         inv, zero = features(case_files)
         return [({'kind': 'index_raises', 'exc': type(err).__name__, 'invariant_column': inv, 'object_without_components': zero},
